@@ -121,6 +121,7 @@ def run(chk):
     for c in cases:
         if linkgen.max_inrange(c['frames'], c['sr'], c['memory']) > 8:
             chk.tally('skipped: neighbour cap binding'); continue
+        c02.safe_strategy(c)
         if degenerate(c):
             chk.tally('skipped: pair within 1e-9 of a reduced range (float boundary)'); continue
         out = run_impl(c)
